@@ -141,7 +141,91 @@ def cmd_run(name, props):
     return rc
 
 
+REFAC = os.path.join(VERIF, "refactors")
+
+
+def cmd_verify_refactor(src, name):
+    """behaviour-preserving change: patch applies to /repo HEAD, library builds, suite (incl. unit tests) still passes"""
+    wt = tempfile.mkdtemp(prefix="rtrverif.rf.")
+    os.rmdir(wt)
+    meta = {"name": name, "kind": "behaviour-preserving refactoring", "verified_at_repo_head": sh("git -C /repo rev-parse --short HEAD").stdout.strip()}
+    try:
+        assert sh("git -C /repo worktree add -q --detach %s HEAD" % wt).returncode == 0
+        for h in ("rtrlib.h", "config.h"):
+            shutil.copy("/repo/rtrlib/" + h, os.path.join(wt, "rtrlib", h))
+        ra = sh("git -C %s apply %s" % (wt, os.path.join(src, "patch.diff")))
+        meta["apply"] = ra.returncode
+        if ra.returncode != 0:
+            print("does not apply:", ra.stderr[-300:])
+            return 1
+        bdir = wt + ".build"
+        rb = sh("cmake -S %s -B %s/b -G Ninja -DCMAKE_BUILD_TYPE=RelWithDebInfo -DUNIT_TESTING=ON >/dev/null && cmake --build %s/b 2>&1 | tail -3" % (wt, bdir, bdir), timeout=900)
+        failed, tail = ctest_failures(bdir + "/b")
+        meta["build"] = rb.returncode
+        meta["ctest_failed"] = sorted(failed)
+        ok = rb.returncode == 0 and failed <= EXPECTED_FAIL
+        if not ok:
+            print("NOT CONFIRMED", name, meta)
+            return 1
+        d = os.path.join(REFAC, name)
+        os.makedirs(d, exist_ok=True)
+        for f in ("patch.diff", "README.md"):
+            if os.path.exists(os.path.join(src, f)):
+                shutil.copy(os.path.join(src, f), os.path.join(d, f))
+        meta["what_was_run"] = "git apply on a worktree of /repo HEAD; cmake -DUNIT_TESTING=ON + ninja; ctest (failed: %s)" % sorted(failed)
+        json.dump(meta, open(os.path.join(d, "meta.json"), "w"), indent=1)
+        print("CONFIRMED refactoring stored:", d)
+        return 0
+    finally:
+        sh("git -C /repo worktree remove --force %s" % wt)
+        shutil.rmtree(wt + ".build", ignore_errors=True)
+        shutil.rmtree(wt, ignore_errors=True)
+        sh("git -C /repo worktree prune")
+
+
+def cmd_run_refactors(name):
+    names = sorted(os.listdir(REFAC)) if name == "all" else [name]
+    man = json.load(open(os.path.join(VERIF, "MANIFEST.json")))
+    allprops = [c["property_id"] for c in man["checks"]]
+    rc = 0
+    from concurrent.futures import ThreadPoolExecutor
+    for n in names:
+        d = os.path.join(REFAC, n)
+        if not os.path.exists(os.path.join(d, "patch.diff")):
+            continue
+        assert sh("git -C /repo status --porcelain --untracked-files=no").stdout.strip() == "", "/repo has uncommitted changes"
+        ra = sh("git -C /repo apply %s" % os.path.join(d, "patch.diff"))
+        res = {"applied": ra.returncode == 0, "checks": {}}
+        try:
+            if ra.returncode == 0:
+                sh("cd %s && ./check %s --tier quick" % (VERIF, allprops[0]), timeout=900)
+
+                def one(p):
+                    r = sh("cd %s && ./check %s --tier quick" % (VERIF, p), timeout=900)
+                    lines = [l for l in r.stdout.splitlines() if l.startswith("  violation:") or l.startswith("ANALYSIS-BROKEN")]
+                    return p, {"exit": r.returncode, "lines": [l.strip()[:300] for l in lines][:5]}
+                with ThreadPoolExecutor(max_workers=8) as ex:
+                    for p, r in ex.map(one, allprops):
+                        res["checks"][p] = r
+        finally:
+            sh("git -C /repo checkout -- .")
+        alarms = {p: v for p, v in res["checks"].items() if v["exit"] != 0}
+        res["alarms"] = sorted(alarms)
+        json.dump(res, open(os.path.join(d, "result.json"), "w"), indent=1)
+        print("%-12s applied=%s alarms=%s" % (n, res["applied"], {p: v["exit"] for p, v in alarms.items()}))
+        for p, v in alarms.items():
+            for l in v["lines"][:2]:
+                print("      ", p, l[:230])
+        if alarms:
+            rc = 1
+    return rc
+
+
 if __name__ == "__main__":
+    if sys.argv[1] == "verify-refactor":
+        sys.exit(cmd_verify_refactor(sys.argv[2], sys.argv[3]))
+    if sys.argv[1] == "run-refactors":
+        sys.exit(cmd_run_refactors(sys.argv[2]))
     if sys.argv[1] == "verify":
         sys.exit(cmd_verify(sys.argv[2], sys.argv[3], sys.argv[4]))
     if sys.argv[1] == "run":
